@@ -142,18 +142,23 @@ Theorem c11_delete_node_preserves_lanes :
 Proof. exact ldelete_node_ok. Qed.
 Print Assumptions c11_delete_node_preserves_lanes.
 
-(* the lane model returns what the stage-1 model returns.  Proved so far for the calls in
-   [covered] (Add, Remove, RemoveRangeByScore, RemoveRangeByRank, GetScore, Len); for GetRank,
-   GetRange, Count and GetRangeByScore the equality of results is checked on every run by the
-   differential comparison only.  Full statement (all calls):
-     forall orc ops, snd (lrun (lzempty orc) ops) = snd (run empty ops) *)
-Theorem c11_lane_results_partial :
+(* the lane model returns what the stage-1 model returns, for every call (Add, Remove, the
+   range removals, Count, GetRank with its early exit, GetScore, GetRange through
+   GetElementByRank and the forward/backward walks, GetRangeByScore through First/LastInRange),
+   for ALL operation sequences and ALL height oracles ... *)
+Theorem c11_lane_results :
   forall (orc : list nat) (ops : list op),
-    let los := snd (lrun (lzempty orc) ops) in
-    let os := snd (run empty ops) in
-    Forall2 (fun o xy => covered o = true -> fst xy = snd xy) ops (combine los os).
-Proof. exact lane_model_results_partial. Qed.
-Print Assumptions c11_lane_results_partial.
+    snd (lrun (lzempty orc) ops) = snd (run empty ops).
+Proof. exact lane_model_results. Qed.
+Print Assumptions c11_lane_results.
+
+(* ... hence c11_refines_ranking holds for the real skip list too: lane model -> level-0 model
+   -> reference ranking *)
+Theorem c11_lane_refines_ranking :
+  forall (orc : list nat) (ops : list op),
+    snd (lrun (lzempty orc) ops) = snd (spec_run [] ops).
+Proof. exact lane_model_refines_ranking. Qed.
+Print Assumptions c11_lane_refines_ranking.
 
 Example c11_example_lane_model :
   let ops := [Add 1 10; Add 2 20; Add 3 30; Add 4 20; Count 10 20; GetRank 4 false; GetRange (-2) (-1) true;
